@@ -7,6 +7,7 @@ import (
 	"encoding/hex"
 	"fmt"
 	"reflect"
+	"time"
 
 	"github.com/M2MGateway/go-smpp/pdu"
 )
@@ -43,7 +44,176 @@ func corrC05(r *Run) {
 		i := i
 		confirmed(r, func() { c05AfterRefusal(r, ts, i) })
 	}
+	// a transport that honours the read deadlines Watch sets: inbound PDUs never further apart than ReadTimeout
+	for i, nd := 0, r.N(24, 120); i < nd; i++ {
+		i := i
+		confirmed(r, func() { c05Deadlines(r, ts, i) })
+	}
+	for i, nd := 0, r.N(2, 6); i < nd; i++ {
+		i := i
+		confirmed(r, func() { c05DeadlinesReal(r, ts, i) })
+	}
 	c05Resp(r, ts)
+}
+
+// c05Deadlines: ReadTimeout T is configured and the transport honours read deadlines, against a clock only the controller
+// advances (Transport.Virtual: no sleeping).  Requests are outstanding; the peer keeps sending — unsolicited PDUs and the
+// responses — with gaps below T between consecutive inbound PDUs (0.45 T then 0.75 T first: more than T after Watch
+// started, less than T after the previous PDU).  The hypotheses of C05 hold, so every Submit returns its own response
+// and Watch keeps running.  At the end the peer falls silent for 1.5 T: now the deadline passes and the connection ends.
+func c05Deadlines(r *Run, ts []pduType, idx int) {
+	rng := r.Rng
+	w := NewWorld(true)
+	defer w.Shutdown()
+	T := time.Duration(1+rng.Intn(900)) * time.Second
+	w.T.Virtual = true
+	w.C.ReadTimeout = T
+	w.StartWatch()
+	seq := int32(1 + rng.Intn(1<<20))
+	fresh := func() int32 { seq += int32(1 + rng.Intn(3)); return seq }
+	wantWire := map[int32][]byte{}
+	var calls []*Call
+	for g, n := 0, 1+rng.Intn(3); g < n; g++ {
+		p, q := genSendable(rng, ts, true, 600), fresh()
+		wantWire[q] = expectedFrame(p, q)
+		c := w.Go(g, CallSpec{Kind: "submit", Seq: q, P: p})[0]
+		if rng.Intn(3) != 0 {
+			w.Release(c)
+		}
+		calls = append(calls, c)
+	}
+	advance := func(f float64) {
+		w.T.Advance(time.Duration(f * float64(T)))
+		w.sync() // (no event of the model: nothing is due)
+	}
+	var wantApp []Delivery
+	gaps := []float64{0.45, 0.75}
+	pendingAnswers := append([]*Call(nil), calls...)
+	early := ""
+	for step := 0; (step < len(gaps) || len(pendingAnswers) > 0) && w.Stuck == ""; step++ {
+		gap := 0.2 + 0.75*float64(rng.Intn(1000))/1000
+		if step < len(gaps) {
+			gap = gaps[step]
+		}
+		advance(gap)
+		if w.WatchReturned() && early == "" {
+			early = fmt.Sprintf("after a silence of %.2f x ReadTimeout (step %d)", gap, step)
+		}
+		if len(pendingAnswers) > 0 && (step == 1 || (step > 1 && rng.Intn(3) != 0)) {
+			c := pendingAnswers[0]
+			pendingAnswers = pendingAnswers[1:]
+			f := frameOf(respFor(c.P, c.Seq))
+			w.Peer([][]byte{f}, [][]int{genCuts(rng, len(f))})
+		} else {
+			f := genUnsolicited(rng, ts, fresh())
+			_, id, q := classifyFrame(f)
+			wantApp = append(wantApp, Delivery{id, q})
+			w.Peer([][]byte{f}, [][]int{genCuts(rng, len(f))})
+		}
+		if step > 40 {
+			break
+		}
+	}
+	for _, c := range calls {
+		if w.Held(c) {
+			w.Release(c)
+		}
+	}
+	mid := "sched " + w.Script()
+	if w.Stuck == "" {
+		if early != "" || w.WatchReturned() || w.doneClosed() {
+			r.Fail("deadline/connection-ended-although-the-peer-kept-sending", "with a transport that honours read deadlines the connection ended although consecutive inbound PDUs were never ReadTimeout apart", mid,
+				fmt.Sprintf("Watch returned=%v Done()=%v %s; SetReadDeadline calls at (virtual) %v", w.WatchReturned(), w.doneClosed(), early, w.T.DeadlineSets), "Watch keeps reading: every ReadPDU has ReadTimeout from the moment it starts")
+		}
+		for _, c := range calls {
+			want := fmt.Sprintf("ok:%#x:%d", idOfPDU(c.P)|0x80000000, c.Seq)
+			if got := c.Class(); got != want {
+				r.Fail("submit/deadline-honouring-transport", "a Submit answered within ReadTimeout of the previous inbound PDU did not return, without error, its own response", mid, got, want)
+			}
+		}
+	}
+	// silence: the deadline passes, the transport reports a timeout, the connection ends (C15's read timeout)
+	w.T.Advance(T + T/2)
+	w.force("PeerEnd")
+	w.sync()
+	input := "sched " + w.Script()
+	r.Count(input, true, "deadline-honouring-transport/virtual-clock")
+	if runStuck(r, w, input) {
+		return
+	}
+	for _, p := range w.Panics() {
+		r.Fail("panic", "a library goroutine panicked", input, p, "no panic")
+	}
+	if !w.WatchReturned() || !w.doneClosed() {
+		r.Fail("deadline/silence-not-noticed", "after 1.5 x ReadTimeout of silence on a transport that honours read deadlines Watch is still reading", input,
+			fmt.Sprintf("Watch returned=%v Done()=%v", w.WatchReturned(), w.doneClosed()), "the read times out, Watch returns, Done() closes")
+	}
+	c05Wire(r, input, w, wantWire)
+	got := w.App()
+	same := len(got) == len(wantApp)
+	for i := 0; same && i < len(got); i++ {
+		same = got[i] == wantApp[i]
+	}
+	if !same {
+		r.Fail("submit/response-leaked", "PDU() did not yield exactly the unsolicited PDUs", input, fmtDeliveries(got), fmtDeliveries(wantApp))
+	}
+	r.Case(fmt.Sprintf("deadline#%d (admitted, within the hypotheses of C05) %.200s", idx, input), w.EnvExpr(connVariant))
+}
+
+// c05DeadlinesReal: the same with real time (the library computes its deadlines from time.Now()): ReadTimeout 400 ms, an
+// unsolicited PDU 180 ms after Watch started, the response 460 ms after Watch started (280 ms after that PDU).  The
+// controller measures what it actually did: a run in which the machine delayed it beyond the margins proves nothing
+// and is repeated (three times at most, then dropped with a note).
+func c05DeadlinesReal(r *Run, ts []pduType, idx int) {
+	rng := r.Rng
+	T := 400 * time.Millisecond
+	if relaxed {
+		T = 2 * time.Second
+	}
+	for attempt := 0; attempt < 3; attempt++ {
+		w := NewWorld(true)
+		w.C.ReadTimeout = T
+		w.T.ArmDeadlines()
+		t0 := time.Now()
+		w.StartWatch()
+		p, q := genSendable(rng, ts, true, 600), int32(1000+rng.Intn(1000))
+		c := w.Go(0, CallSpec{Kind: "submit", Seq: q, P: p})[0]
+		w.Release(c)
+		u := genUnsolicited(rng, ts, q+1)
+		_, uid, useq := classifyFrame(u)
+		resp := frameOf(respFor(c.P, c.Seq))
+		time.Sleep(time.Until(t0.Add(T * 45 / 100)))
+		t1 := time.Now()
+		w.Peer([][]byte{u}, nil)
+		t1done := time.Now()
+		time.Sleep(time.Until(t0.Add(T * 115 / 100)))
+		t2 := time.Now()
+		// the run says something only if the PDU really came within T/2 of the start and the response within 0.9 T of it
+		valid := t1done.Sub(t0) < T/2 && t2.Sub(t1) < T*9/10 && w.Stuck == ""
+		if valid {
+			w.Peer([][]byte{resp}, nil)
+		}
+		input := "sched " + w.Script()
+		if !valid {
+			w.Shutdown()
+			if attempt == 2 {
+				r.Notes = append(r.Notes, fmt.Sprintf("real-time deadline scenario #%d dropped: the controller was delayed beyond the margins three times (PDU at %s, response due at %s, ReadTimeout %s)", idx, t1done.Sub(t0), t2.Sub(t0), T))
+			}
+			continue
+		}
+		r.Count(input, true, "deadline-honouring-transport/real-time")
+		want := fmt.Sprintf("ok:%#x:%d", idOfPDU(c.P)|0x80000000, c.Seq)
+		if got := c.Class(); got != want || w.WatchReturned() {
+			r.Fail("submit/deadline-honouring-transport/real-time", "a Submit answered within ReadTimeout of the previous inbound PDU did not return, without error, its own response", input,
+				fmt.Sprintf("%s, Watch returned=%v (ReadTimeout %s; PDU at %s, response at %s after Watch started)", got, w.WatchReturned(), T, t1.Sub(t0), t2.Sub(t0)), want+", Watch reading")
+		}
+		if app := w.App(); len(app) != 1 || app[0] != (Delivery{uid, useq}) {
+			r.Fail("submit/response-leaked", "PDU() did not yield exactly the unsolicited PDU", input, fmtDeliveries(app), fmtDeliveries([]Delivery{{uid, useq}}))
+		}
+		r.Case(fmt.Sprintf("deadline-real#%d (admitted, within the hypotheses of C05) %.200s", idx, input), w.EnvExpr(connVariant))
+		w.Shutdown()
+		return
+	}
 }
 
 // c05Wire: what the scripted peer received, Write by Write, against the frames worked out when the calls were drawn
@@ -154,6 +324,20 @@ func c05AfterRefusal(r *Run, ts []pduType, idx int) {
 			}
 		}
 	}
+	// in every second world the peer then uses the numbers of the refused Submits for PDUs of its own (request and response
+	// types): nothing is outstanding under them, they reach PDU().  (Outside the hypotheses of C05 — the peer uses a number
+	// whose request never reached it — so those worlds are compared with the model only.)
+	var wantApp []Delivery
+	if idx%2 == 1 && w.Stuck == "" {
+		for _, c := range bads {
+			if c.Kind == "submit" && w.Returned(c) {
+				f := genUnsolicited(rng, ts, c.Seq)
+				_, id, q := classifyFrame(f)
+				wantApp = append(wantApp, Delivery{id, q})
+				w.Peer([][]byte{f}, [][]int{genCuts(rng, len(f))})
+			}
+		}
+	}
 	input := "sched " + w.Script()
 	r.Count(input, nRefused > 0, fmt.Sprintf("after-refusal/refused=%d", min(nRefused, 4)))
 	if runStuck(r, w, input) {
@@ -174,10 +358,19 @@ func c05AfterRefusal(r *Run, ts []pduType, idx int) {
 			r.Fail("submit/after-a-refused-request", "a Submit issued after a call whose PDU was refused did not return, without error, the response carrying its own sequence number", input, got, wantC)
 		}
 	}
-	if app := w.App(); len(app) != 0 {
-		r.Fail("submit/response-leaked", "PDU() yielded a response to an outstanding request", input, fmtDeliveries(app), "[]")
+	app := w.App()
+	same := len(app) == len(wantApp)
+	for i := 0; same && i < len(app); i++ {
+		same = app[i] == wantApp[i]
 	}
-	r.Case(fmt.Sprintf("refusal#%d (admitted, within the hypotheses of C05) %.200s", idx, input), w.EnvExpr(connVariant))
+	if !same {
+		r.Fail("submit/number-of-a-refused-request", "PDU() did not yield exactly the PDUs the peer sent under the numbers of refused requests", input, fmtDeliveries(app), fmtDeliveries(wantApp))
+	}
+	if len(wantApp) > 0 {
+		r.Case(fmt.Sprintf("refusal#%d (admitted) %.200s", idx, input), w.CaseExpr(connVariant))
+	} else {
+		r.Case(fmt.Sprintf("refusal#%d (admitted, within the hypotheses of C05) %.200s", idx, input), w.EnvExpr(connVariant))
+	}
 }
 
 // D25: the response becomes readable while the transport still holds the
